@@ -33,7 +33,7 @@ entries its own store proposed, every client is answered at most once and only b
 of the command it proposed — for every run. -/
 theorem C22_answer_matches (c : PipeCfg) (hc : c.Good) (ops : List Op)
     (hv : ValidRun c false Sys.init ops) : AnswerMatches (run c Sys.init ops) := by
-  obtain ⟨hm, hd, _⟩ := hc
+  obtain ⟨hm, hd, _, _⟩ := hc
   have hi := inv_run hd (Or.inl hm) ops (inv_init false) hv
   intro s x hx
   have hw := hi.wok s x hx
@@ -54,17 +54,17 @@ theorem C22_partial_unique_ids (c : PipeCfg) (hc : c.Once) (ops : List Op)
 /-- NoKV's half of "same sequence": a store applies exactly the command entries raft
 delivered to it, in delivery order, independent of how raft batched them and of everything
 else that happens on the store. -/
-theorem C22_applies_delivered (c : PipeCfg) (ops : List Op) (s : Nat) :
+theorem C22_applies_delivered (c : PipeCfg) (hc : c.DeliversOnce) (ops : List Op) (s : Nat) :
     ((run c Sys.init ops).st s).alog = (deliveredTo s ops).filterMap cmdOf := by
-  simpa [Sys.init] using alog_run c ops s Sys.init
+  simpa [Sys.init] using alog_run c hc ops s Sys.init
 
 /-- **Same sequence, under `RaftSafety`.**  If the committed entries handed to the replicas
 are prefix-related (assumed of etcd/raft), so are the command sequences the replicas apply. -/
-theorem C22_same_sequence (c : PipeCfg) (ops : List Op)
+theorem C22_same_sequence (c : PipeCfg) (hc : c.DeliversOnce) (ops : List Op)
     (hr : RaftSafety (fun s => deliveredTo s ops)) (s t : Nat) :
     ((run c Sys.init ops).st s).alog <+: ((run c Sys.init ops).st t).alog ∨
     ((run c Sys.init ops).st t).alog <+: ((run c Sys.init ops).st s).alog := by
-  rw [C22_applies_delivered, C22_applies_delivered]
+  rw [C22_applies_delivered c hc, C22_applies_delivered c hc]
   rcases hr.prefix_agree s t with h | h
   · exact Or.inl (h.filterMap _)
   · exact Or.inr (h.filterMap _)
@@ -91,16 +91,16 @@ was never applied anywhere. -/
 theorem C22_fails_asis (c : PipeCfg) (hc : c.AsIs) :
     ValidRun c false Sys.init witness ∧ RaftSafety (fun s => deliveredTo s witness) ∧
     ¬ AnswerMatches (run c Sys.init witness) := by
-  obtain ⟨h1, h2, h3⟩ := hc
-  rcases c with ⟨m, d, r⟩
-  simp only at h1 h2 h3
-  subst h1 h2 h3
+  obtain ⟨h1, h2, h3, h4⟩ := hc
+  rcases c with ⟨m, d, r, a⟩
+  simp only at h1 h2 h3 h4
+  subst h1 h2 h3 h4
   refine ⟨?_, witness_raft_safe, ?_⟩
-  · simp [witness, ValidRun, ValidOp, step, propose, nextId, register, waiting, applyOne, looksUp,
+  · simp [witness, ValidRun, ValidOp, step, handedToApply, propose, nextId, register, waiting, applyOne, looksUp,
       completeW, cmdOf, Sys.set, Sys.init]
   · intro h
-    have hx : (⟨1, 1, 1, false, [⟨2, 1, 2⟩]⟩ : Waiter) ∈ ((run ⟨false, true, true⟩ Sys.init witness).st 1).waiters := by
-      simp [witness, run, step, propose, nextId, register, waiting, applyOne, looksUp, completeW, cmdOf,
+    have hx : (⟨1, 1, 1, false, [⟨2, 1, 2⟩]⟩ : Waiter) ∈ ((run ⟨false, true, true, true⟩ Sys.init witness).st 1).waiters := by
+      simp [witness, run, step, handedToApply, propose, nextId, register, waiting, applyOne, looksUp, completeW, cmdOf,
         Sys.set, Sys.init]
     have := (h 1 _ hx).2 ⟨2, 1, 2⟩ (by simp)
     simp at this
@@ -117,20 +117,44 @@ completes a new client that was given the same id — whether or not completion 
 proposer, because the proposer *is* the same peer. -/
 theorem C22_restart_breaks_matching (c : PipeCfg) (hc : c.Once) :
     ValidRunR c Sys.init witnessRestart ∧ ¬ AnswerMatches (run c Sys.init witnessRestart) := by
-  rcases c with ⟨m, d, r⟩
+  rcases c with ⟨m, d, r, a⟩
   have hd : d = true := hc
   subst hd
   refine ⟨?_, ?_⟩
-  · cases m <;> cases r <;>
+  · cases m <;> cases r <;> cases a <;>
       simp [witnessRestart, ValidRunR, ValidOpR, ValidOp, step, propose, nextId, register, waiting, restart,
         cmdOf, Sys.set, Sys.init]
   · intro h
-    have hx : (⟨2, 1, 2, false, [⟨1, 1, 1⟩]⟩ : Waiter) ∈ ((run ⟨m, true, r⟩ Sys.init witnessRestart).st 1).waiters := by
-      cases m <;> cases r <;>
-        simp [witnessRestart, run, step, propose, nextId, register, waiting, restart, applyOne, looksUp,
+    have hx : (⟨2, 1, 2, false, [⟨1, 1, 1⟩]⟩ : Waiter) ∈ ((run ⟨m, true, r, a⟩ Sys.init witnessRestart).st 1).waiters := by
+      cases m <;> cases r <;> cases a <;>
+        simp [witnessRestart, run, step, handedToApply, beforeLastBarrier, isCmdLike, List.dropWhile, propose, nextId, register, waiting, restart, applyOne, looksUp,
           completeW, cmdOf, Sys.set, Sys.init]
     have := (h 1 _ hx).2 ⟨1, 1, 1⟩ (by simp)
     simp at this
+
+/-- A committed batch as a replica sees it when it catches up after a partition: a command, an
+admin (split / merge) entry, another command - `corpus/C22/catchup-batch-with-admin-entry.ops`. -/
+def witnessBatch : List Op :=
+  [.propose 1 1 1, .propose 1 2 2, .deliver 3 [.cmd ⟨1, 1, 1⟩, .admin, .cmd ⟨1, 2, 2⟩]]
+
+/-- **Why `applyEachOnce` is part of the configuration**: with the "flush before every admin /
+conf-change entry, then apply the whole slice" shape the replica applies the first command
+twice, so it no longer applies the sequence raft delivered (and an answered proposal is applied
+more than once) - in a run that raft is entitled to produce. -/
+theorem C22_fails_redelivery (c : PipeCfg) (hc : c.Redelivers) :
+    ValidRun c false Sys.init witnessBatch ∧
+    ((run c Sys.init witnessBatch).st 3).alog = [⟨1, 1, 1⟩, ⟨1, 1, 1⟩, ⟨1, 2, 2⟩] ∧
+    ((run c Sys.init witnessBatch).st 3).alog ≠ (deliveredTo 3 witnessBatch).filterMap cmdOf := by
+  rcases c with ⟨m, d, r, a⟩
+  have ha : a = false := hc
+  subst ha
+  have hal : ∀ m d r, ((run ⟨m, d, r, false⟩ Sys.init witnessBatch).st 3).alog = [⟨1, 1, 1⟩, ⟨1, 1, 1⟩, ⟨1, 2, 2⟩] := by
+    intro m d r; cases m <;> cases d <;> cases r <;> rfl
+  refine ⟨?_, hal m d r, ?_⟩
+  · have hb : handedToApply ⟨m, d, r, false⟩ [.cmd ⟨1, 1, 1⟩, .admin, .cmd ⟨1, 2, 2⟩] = [⟨1, 1, 1⟩, ⟨1, 1, 1⟩, ⟨1, 2, 2⟩] := rfl
+    cases m <;> cases d <;> cases r <;>
+      simp [witnessBatch, ValidRun, ValidOp, step, propose, nextId, register, waiting, cmdOf, Sys.set, Sys.init]
+  · rw [hal]; decide
 
 /-- Non-vacuity of the headline theorem: in the repaired configuration the same run is valid,
 store 1's client keeps waiting, and store 2's client is answered by its own command. -/
@@ -138,7 +162,7 @@ example : ValidRun PipeCfg.good false Sys.init witness ∧
     (⟨2, 1, 2, false, [⟨2, 1, 2⟩]⟩ : Waiter) ∈ ((run PipeCfg.good Sys.init witness).st 2).waiters ∧
     (⟨1, 1, 1, true, []⟩ : Waiter) ∈ ((run PipeCfg.good Sys.init witness).st 1).waiters := by
   refine ⟨?_, ?_, ?_⟩ <;>
-  simp [witness, PipeCfg.good, ValidRun, ValidOp, run, step, propose, nextId, register, waiting, applyOne,
+  simp [witness, PipeCfg.good, ValidRun, ValidOp, run, step, handedToApply, propose, nextId, register, waiting, applyOne,
     looksUp, completeW, cmdOf, Sys.set, Sys.init]
 
 end NoKV.Props.C22
